@@ -1632,7 +1632,22 @@ static void do_source_file(const char *filename_in,
 
    if (did_open)
    {
-      fclose(pfout);
+      // a write that failed (disk full, quota, I/O error) leaves a truncated
+      // file, which must not be renamed over the target
+      const bool write_failed = (ferror(pfout) != 0);
+
+      if (  (fclose(pfout) != 0)
+         || write_failed)
+      {
+         LOG_FMT(LERR, "%s: Failed to write %s\n",
+                 __func__, filename_tmp.c_str());
+
+         if (filename_tmp != filename_out)
+         {
+            UNUSED(unlink(filename_tmp.c_str()));
+         }
+         exit(EX_IOERR);
+      }
 
       if (need_backup)
       {
